@@ -21,6 +21,7 @@ import tomllib
 import facts as factsmod
 from mir import Program, callee_names, op_local, calls_named
 import common
+from shape import hyp_reach, option_switch
 
 SPEC_KEEP = ["name", "type", "fields", "symbols", "items", "values", "size"]
 EMPTY = -4513414715797952619  # 0xc15d213aa4d7a795 as i64
@@ -71,9 +72,10 @@ def run(rep, tier="quick", replay=None, evidence_dir=None):
         head = nxt[0][0]
         pushes = set(bi for bi, t in calls_named(pm, "std::vec::Vec::<T, A>::push"))
         rets = set(pm.return_blocks())
-        strip = []
-        emits = []
-        cmps = []
+        # hypothetical attribute: under "the attribute name is L" every comparison of the loop with a literal is decided
+        # (true for L, false otherwise) and so is the table lookup; an attribute is emitted when a push (or the simple-form
+        # return) can be reached before the next attribute is fetched
+        cmp_calls = {}
         for bi, t in pm.calls():
             nm = callee_names(t["func"])
             if not nm or nm[0] != "std::cmp::PartialEq::eq" or not pm.in_loop(bi):
@@ -81,28 +83,35 @@ def run(rep, tier="quick", replay=None, evidence_dir=None):
             lit = None
             for a in t["args"]:
                 lit = lit or pm.op_str(a)
-            if lit is None:
-                continue
-            sw = bool_switch(pm, bi)
-            if not sw:
-                continue
-            reg = pm.reachable(sw[2], avoid={head})
-            cmps.append(lit)
-            # calls to direct-return (simple form) also count as "emits"
-            direct_ret = any(pm.blocks[x]["term"]["t"] == "call" and pm.blocks[x]["term"]["dest"]["l"] == 0 for x in reg)
-            if not (reg & pushes) and not direct_ret and not (reg & rets):
-                strip.append(lit)
-            else:
-                emits.append(lit)
-        unknown = calls_named(pm, "std::option::Option::<T>::is_none")
-        ok_unknown = False
-        for bi, t in unknown:
+            if lit is not None:
+                cmp_calls[bi] = lit
+        look = {}
+        for bi, t in calls_named(pm, "std::option::Option::<T>::is_none", "std::option::Option::<T>::is_some"):
             cr = pm.call_result_of(t["args"][0])
-            if cr and callee_names(cr[1]["func"])[0] == "schema::field_ordering_position":
-                sw = bool_switch(pm, bi)
-                if sw:
-                    reg = pm.reachable(sw[2], avoid={head})
-                    ok_unknown = not (reg & pushes) and not (reg & rets)
+            if cr and callee_names(cr[1]["func"])[0] == "schema::field_ordering_position" and pm.in_loop(bi):
+                look[bi] = callee_names(t["func"])[0].endswith("is_none")
+        rep.ob("C12.R1", "the loop consults the attribute table (field_ordering_position(k).is_none())", len(look) >= 1, "", pm.loc())
+        osw = option_switch(pm, nxt[0][1]["dest"]["l"])
+        if not rep.ob("C12.R1", "the loop body is entered on the Some edge of the attribute iterator", osw is not None, "", pm.loc(head)):
+            return common.finish(rep, evidence_dir=evidence_dir)
+        body_entry = [osw[2]]
+
+        def emitted_under(L):
+            def cv(bi, t):
+                if bi in cmp_calls:
+                    return cmp_calls[bi] == L
+                if bi in look:
+                    return (L not in table) == look[bi]
+                return None
+            reg = hyp_reach(pm, body_entry, cv, stop={head})
+            direct_ret = any(pm.blocks[x]["term"]["t"] == "call" and pm.blocks[x]["term"]["dest"]["l"] == 0 for x in reg)
+            return bool(reg & pushes) or direct_ret or bool(reg & rets)
+        cmps = sorted(set(cmp_calls.values()))
+        strip = []
+        emits = []
+        for L in sorted(set(table) | set(cmps)):
+            (emits if emitted_under(L) else strip).append(L)
+        ok_unknown = not emitted_under("\0 any attribute outside the table")
         rep.ob("C12.R1", "attributes outside the table are stripped", ok_unknown, "unknown attributes (doc-like extras, custom attributes) must not reach the canonical form", pm.loc())
         kept = [f for f in table if f not in strip]
         rep.analysed["attributes explicitly stripped"] = len(strip)
